@@ -419,9 +419,11 @@ def run(ctx) -> dict:
             'escaping functions pass to urllib.parse.quote a safe set which, with quote\'s '
             'always-safe characters, equals the set F&O §6 lists as unescaped.',
         'not_decided':
-            'All other string equations (substring-before/after, contains, translate with '
-            'repeated map characters, normalize-space, case mapping, codepoint round trip), '
-            'and agreement with libxml2: statements over string values.',
+            'Decided: substring rounding, URI safe sets, the XML Char production (function and '
+            'regex spellings), first-occurrence semantics of translate, XML whitespace in '
+            'normalize-space and the whitespace facets. Not decided: the other string equations '
+            '(substring-before/after, contains, case mapping, codepoint round trip, the string '
+            'value of doubles) and agreement with libxml2: statements over string values.',
         'assumptions': ['sa/specs/uri_escaping.json transcribes F&O §6.2-6.4',
                         'urllib.parse.quote never escapes letters, digits and _ . - ~'],
     }
